@@ -626,7 +626,23 @@ def classify_dev(toks, src=None):
                 j += 1
     for i in range(n - 1):
         if strs[i] == ">" and strs[i + 1] == ">" and src is not None and ">>" in src:
-            return "shift-split-as-template-brackets"   # `>>` split by splitTemplateRightAngleBrackets
+            return "template-bracket-heuristic"         # `>>` split by splitTemplateRightAngleBrackets
+    if any("T" in f for f in fl):
+        return "template-bracket-heuristic"             # `<` ... `>` between variables linked as template brackets
+    if src is not None and strs.count("(") < src.count("("):
+        for i in range(len(src) - 1):
+            k = i
+            while k > 0 and src[k] == "(":
+                k -= 1
+            if src[k] == "," and k < i and src[i] == "(" or (src[i] == "," and src[i + 1] == "("):
+                d, j = 0, (i if src[i] == "(" else i + 1)
+                while j < len(src):
+                    d += 1 if src[j] == "(" else -1 if src[j] == ")" else 0
+                    if d == 0:
+                        break
+                    j += 1
+                if j + 1 < len(src) and src[j + 1] == "=":
+                    return "comma-paren-assign-parentheses-removed"     # `, ( ... ) =` loses its parentheses
     for i in range(n - 1):
         if strs[i] == "!" and "S" in fl[i + 1]:
             return "not-cast-parentheses-removed"      # `! ( T )` rewritten to `! T`
@@ -880,6 +896,208 @@ def run_raw(ctx, res, exe, drv, n_prep, n_ast):
               "" if not mism else "%d of %d cases differ; first: %s impl=[%s] model=[%s]" % (len(mism), len(cases), mism[0][0], mism[0][1], mism[0][2]))
 
 
+# ------------------------------------------------------------------------------------------------------------
+# thorough tier: the CLI's --dump (observe_at of the property) and clang as oracle for the specification side
+# ------------------------------------------------------------------------------------------------------------
+
+def run_dump(ctx, res, exe, n):
+    """same expressions through `cppcheck --dump` (XML astOperand1/2) and through the in-process harness"""
+    import xml.etree.ElementTree as ET
+    rng = ctx.rng
+    bad, total = [], 0
+    for lang in ("c", "cpp"):
+        trees = [gen_tree(rng, rng.choice([2, 3, 4]), lang == "cpp", rng.random() < 0.6) for _ in range(n)]
+        cases = [mk_case(rng, lang, t, rng.choice([0.0, 0.2])) for t in trees]
+        # one rejected statement would make the CLI drop the whole file: keep what the in-process tokenizer accepts
+        ops = ["full %s %s" % (lang, core.hx(PROLOGUE + "x = " + source_of(c["toks"]) + " ;\n}\n")) for c in cases]
+        rc, impl0, err = core.run_lines(exe, [], ops, timeout=900)
+        cases = [c for c, o in zip(cases, impl0) if o.startswith("ok")]
+        src = PROLOGUE.replace("void f(", "void f0(")
+        body = "".join("x = %s ;\n" % source_of(c["toks"]) for c in cases)
+        path = os.path.join(ctx.tmp, "dump_%s.%s" % (lang, lang))
+        open(path, "w").write(src + body + "}\n")
+        rc, out, err = core.sh([ctx.cppcheck, "--dump", "-q", "--max-configs=1", path], timeout=600)
+        dump = path + ".dump"
+        if not os.path.exists(dump):
+            res.oblig("correspondence:dump-%s" % lang, False, "correspondence", "no dump file: rc=%s %s" % (rc, (out + err)[-400:]))
+            continue
+        root = ET.parse(dump).getroot()
+        toks = {}
+        order = []
+        for t in root.iter("token"):
+            toks[t.get("id")] = t
+            order.append(t)
+
+        def poly(t):
+            m = (1 if t.get("astOperand1") else 0) + (2 if t.get("astOperand2") else 0)
+            out = [t.get("str") + "/%d" % m]
+            if t.get("astOperand1"):
+                out += poly(toks[t.get("astOperand1")])
+            if t.get("astOperand2"):
+                out += poly(toks[t.get("astOperand2")])
+            return out
+        # statement roots inside f0, in order, by line number (one statement per line)
+        first_line = (src.count("\n")) + 1
+        by_line = {}
+        for t in order:
+            ln = int(t.get("linenr"))
+            if ln >= first_line and not t.get("astParent") and (t.get("astOperand1") or t.get("astOperand2")):
+                by_line.setdefault(ln, []).append(" ".join(poly(t)))
+        ops = ["full %s %s" % (lang, core.hx(PROLOGUE + "x = " + source_of(c["toks"]) + " ;\n}\n")) for c in cases]
+        rc, impl, err = core.run_lines(exe, [], ops, timeout=900)
+        for i, (c, o) in enumerate(zip(cases, impl)):
+            p = parse_impl(o)
+            d = " ; ".join(by_line.get(first_line + i, []))
+            total += 1
+            if p is None:
+                continue
+            h = " ; ".join(p[1])
+            res.case("dump|%s|%s" % (lang, source_of(c["toks"])), c["nontrivial"], None)
+            if h != d:
+                bad.append((lang, source_of(c["toks"]), h, d))
+    res.traces_validated += total - len(bad)
+    res.oblig("correspondence:dump-equals-in-process", not bad and total > 0, "correspondence",
+              "" if not bad else "%d of %d statements differ between --dump and the in-process harness; first: %s" % (len(bad), total, bad[0]))
+
+
+def clang_poly(node, text):
+    k = node.get("kind")
+    inner = [x for x in node.get("inner", []) if x]
+    if k in ("ParenExpr", "ImplicitCastExpr", "ConstantExpr"):
+        return clang_poly(inner[0], text)
+    if k in ("BinaryOperator", "CompoundAssignOperator"):
+        return [node["opcode"] + "/3"] + clang_poly(inner[0], text) + clang_poly(inner[1], text)
+    if k == "ConditionalOperator":
+        return ["?/3"] + clang_poly(inner[0], text) + [":/3"] + clang_poly(inner[1], text) + clang_poly(inner[2], text)
+    if k == "UnaryOperator":
+        return [node["opcode"] + "/1"] + clang_poly(inner[0], text)
+    if k == "DeclRefExpr":
+        return [node["referencedDecl"]["name"] + "/0"]
+    if k == "IntegerLiteral":
+        return [node["value"] + "/0"]
+    if k == "CStyleCastExpr":
+        return ["(/1"] + clang_poly(inner[0], text)
+    if k == "ArraySubscriptExpr":
+        return ["[/3"] + clang_poly(inner[0], text) + clang_poly(inner[1], text)
+    if k == "MemberExpr":
+        return ["./3"] + clang_poly(inner[0], text) + [node["name"] + "/0"]
+    if k == "CallExpr":
+        f = clang_poly(inner[0], text)
+        if len(inner) == 1:
+            return ["(/1"] + f
+        acc = clang_poly(inner[1], text)
+        for a in inner[2:]:
+            acc = [",/3"] + acc + clang_poly(a, text)
+        return ["(/3"] + f + acc
+    raise Unrecognised("clang node " + str(k))
+
+
+def gen_valid(rng, depth, cpp):
+    """first-stage trees that are valid C/C++ for int operands (assignments only to variables, decimal literals)"""
+    if depth <= 0 or rng.random() < 0.15:
+        return ("num", rng.choice(["1", "2", "7", "10"])) if rng.random() < 0.25 else ("var", rng.choice(INT_VARS))
+    k = rng.random()
+    if k < 0.62:
+        op = rng.choice([o for o in BIN_LEVEL if BIN_LEVEL[o] >= 2 and o != "<=>"])
+        return ("bin", op, gen_valid(rng, depth - 1, cpp), gen_valid(rng, depth - 1, cpp))
+    if k < 0.74:
+        op = rng.choice([o for o in BIN_LEVEL if BIN_LEVEL[o] == 1])
+        return ("bin", op, ("var", rng.choice(INT_VARS)), gen_valid(rng, depth - 1, cpp))
+    if k < 0.8:
+        return ("bin", ",", gen_valid(rng, depth - 1, cpp), gen_valid(rng, depth - 1, cpp))
+    if k < 0.92:
+        e3 = gen_valid(rng, depth - 1, cpp)
+        while not cpp and e3[0] == "bin" and BIN_LEVEL[e3[1]] == 1:
+            e3 = gen_valid(rng, depth - 1, cpp)        # `c ? t : a = b` is not derivable in the C grammar
+        return ("tern", gen_valid(rng, depth - 1, cpp), gen_valid(rng, depth - 1, cpp), e3)
+    op = rng.choice(["-", "!", "~"])
+    return ("pre", op, gen_valid(rng, depth - 1, cpp))
+
+
+def run_clang(ctx, res, n):
+    """the python specification (printer + expected tree, i.e. the ISO table as this check states it) against clang's parser"""
+    import shutil
+    rng = ctx.rng
+    if not shutil.which("clang"):
+        res.notes.append("clang not available: specification oracle skipped")
+        return
+    bad, total = [], 0
+    for lang in ("c", "cpp"):
+        trees = [gen_valid(rng, rng.choice([2, 3, 4, 5]), lang == "cpp") for _ in range(n)]
+        cases = [(t, pr(t, L_ASSIGN, rng, rng.choice([0.0, 0.0, 0.2]))) for t in trees]
+        path = os.path.join(ctx.tmp, "oracle.%s" % ("c" if lang == "c" else "cpp"))
+        with open(path, "w") as f:
+            for i, (t, toks) in enumerate(cases):
+                f.write("void f_%d(int a, int b, int c, int d, int e, int x) { x = %s ; }\n" % (i, source_of(toks)))
+        rc, out, err = core.sh(["clang", "-x", "c" if lang == "c" else "c++", "-w", "-fsyntax-only", "-Xclang", "-ast-dump=json",
+                                "-Xclang", "-ast-dump-filter=f_", path], timeout=900)
+        dec, i, objs = json.JSONDecoder(), 0, []
+        while i < len(out):
+            while i < len(out) and out[i] not in "{":
+                i += 1
+            if i >= len(out):
+                break
+            o, j = dec.raw_decode(out, i)
+            objs.append(o); i = j
+        byname = {o.get("name"): o for o in objs if o.get("kind") == "FunctionDecl"}
+        for k, (t, toks) in enumerate(cases):
+            fn = byname.get("f_%d" % k)
+            total += 1
+            if fn is None:
+                bad.append((lang, source_of(toks), "function missing in clang output (does not compile?)", "")); continue
+            body = [x for x in fn["inner"] if x.get("kind") == "CompoundStmt"][0]
+            try:
+                got = " ".join(clang_poly(body["inner"][0], None))
+            except (Unrecognised, KeyError, IndexError) as ex:
+                bad.append((lang, source_of(toks), "clang tree not understood: %s" % ex, "")); continue
+            want = " ".join(["=/3", "x/0"] + to_ast(t))
+            res.case("clang|%s|%s" % (lang, source_of(toks)), count_ops(t) >= 2, None)
+            if got != want:
+                bad.append((lang, source_of(toks), got, want))
+    res.oblig("oracle:specification-equals-clang", not bad and total > 0, "oracle",
+              "" if not bad else "%d of %d expressions: clang's tree differs from the specification tree; first: %s" % (len(bad), total, bad[0]))
+    res.extra["clang_oracle_cases"] = total
+
+
+def pair_cases():
+    """every ordered pair of binary operators in both groupings, and every binary operator against ?: in every position
+    (printed minimally; the violation key of a deviation here would be the operator pair)"""
+    out = []
+    A, B, C, D = ("var", "a"), ("var", "b"), ("var", "c"), ("var", "d")
+    for lang in ("c", "cpp"):
+        ops = [o for o in BIN_LEVEL if lang == "cpp" or o != "<=>"]
+        trees = []
+        for o1 in ops:
+            for o2 in ops:
+                trees.append(("bin", o1, ("bin", o2, A, B), C))
+                trees.append(("bin", o1, A, ("bin", o2, B, C)))
+            trees.append(("bin", o1, ("tern", A, B, C), D))
+            trees.append(("bin", o1, A, ("tern", B, C, D)))
+            trees.append(("tern", ("bin", o1, A, B), C, D))
+            trees.append(("tern", A, ("bin", o1, B, C), D))
+            trees.append(("tern", A, B, ("bin", o1, C, D)))
+        trees += [("tern", ("tern", A, B, C), D, A), ("tern", A, ("tern", B, C, D), A), ("tern", A, B, ("tern", C, D, A))]
+        for t in trees:
+            if lang == "cpp" and "<" in [x for x in pr(t, L_ASSIGN)] and ">>" in pr(t, L_ASSIGN):
+                pass
+            out.append(dict(lang=lang, toks=pr(t, L_ASSIGN), expect=["=/3", "x/0"] + to_ast(t), tree=t, nontrivial=True))
+    return out
+
+
+def search(ctx, res, exe, drv):
+    """an obligation broke and no failing input is known yet: evaluate P_impl on a much wider sample"""
+    rng = ctx.rng
+    cases = []
+    for i in range(20000):
+        lang = "cpp" if i % 2 else "c"
+        t = gen_tree(rng, rng.choice([2, 3, 4, 5, 6]), lang == "cpp", rng.random() < 0.5)
+        cases.append(mk_case(rng, lang, t, rng.choice([0.0, 0.0, 0.3])))
+    res2 = core.Result(ctx, res.level)
+    fails = run_cases(ctx, res2, exe, drv, cases, "search", count=False)
+    res.extra["search_cases"] = len(cases)
+    report_fails(res, [f for f in fails if f["key"] is None][:20], "search")
+
+
 def load_corpus():
     p = os.path.join(core.VERIF, "corpus", "C07", "cases.json")
     return json.load(open(p)) if os.path.exists(p) else []
@@ -922,9 +1140,23 @@ def run(ctx, res):
         res.count("parens:%s" % ("minimal" if extra == 0 else "redundant"))
     fails = run_cases(ctx, res, exe, drv, cases, "pipeline")
     report_fails(res, fails, "generated")
+    # every pair of binary operators / ?: in both groupings (exhaustive over the table)
+    pc = pair_cases()
+    fails = run_cases(ctx, res, exe, drv, pc, "operator-pairs")
+    report_fails(res, fails, "operator pair")
+    res.extra["operator_pair_cases"] = len(pc)
 
     # ---- C2 / C3 --------------------------------------------------------------------------------------------------------
     run_raw(ctx, res, exe, drv, 3000 if thorough else 600, 6000 if thorough else 1200)
+
+    # ---- thorough: --dump of the CLI, clang as oracle of the specification ---------------------------------------------------
+    if thorough:
+        run_dump(ctx, res, exe, 400)
+        run_clang(ctx, res, 400)
+
+    # ---- violation search: an obligation is undischarged and nothing concrete (outside the known classes) was found yet ----------
+    if any(not o["ok"] for o in res.obligations) and not any(v["concrete"] and v.get("key") is None for v in res.violations):
+        search(ctx, res, exe, drv)
 
 
 def replay(ctx, res, rp):
@@ -936,3 +1168,103 @@ def replay(ctx, res, rp):
         print("VIOLATION property=C07 replay=(replayed) %s got [%s] want [%s]" % (f["desc"], f["got"], f["want"]))
     print("replay: %d deviation(s)" % len(fails))
     return 1 if fails else 0
+
+
+# ------------------------------------------------------------------------------------------------------------
+# self-test (not part of the check):  python3 -m vlib.props.c07 --mutations
+# hand-made mutations of the anchored code, each compiled into a private copy of one object file and linked into a
+# private harness; reports which obligations of this check notice the mutation.  Nothing under /repo is touched.
+# ------------------------------------------------------------------------------------------------------------
+MUTATIONS = [
+    ("M1 `%` moved from compileMulDiv to compileAddSub", "tokenlist.cpp",
+     [('if (Token::Match(tok, "[/%]") || (tok->str() == "*"', 'if (Token::Match(tok, "[/]") || (tok->str() == "*"'),
+      ('if (Token::Match(tok, "+|-") && !tok->astOperand1()) {', 'if (Token::Match(tok, "+|-|%") && !tok->astOperand1()) {')]),
+    ("M2 compileShift skips the additive level", "tokenlist.cpp",
+     [("static void compileShift(Token *&tok, AST_state& state)\n{\n    compileAddSub(tok, state);", "static void compileShift(Token *&tok, AST_state& state)\n{\n    compileMulDiv(tok, state);"),
+      ("compileBinOp(tok, state, compileAddSub);", "compileBinOp(tok, state, compileMulDiv);")]),
+    ("M3 compileBinOp swaps the operands", "tokenlist.cpp",
+     [("    if (!state.op.empty()) {\n        binop->astOperand2(state.op.top());\n        state.op.pop();\n    }\n    if (!state.op.empty()) {\n        binop->astOperand1(state.op.top());",
+       "    if (!state.op.empty()) {\n        binop->astOperand1(state.op.top());\n        state.op.pop();\n    }\n    if (!state.op.empty()) {\n        binop->astOperand2(state.op.top());")]),
+    ("M4 prepareTernaryOpForAST forgets the comma", "tokenize.cpp",
+     [('                else if (tok2->str() == ",")\n                    parenthesesNeeded = true;\n', '')]),
+    ("M5 compileAssignTernary keeps state.assign across `?`", "tokenlist.cpp",
+     [("            state.assign = 0;\n            compileBinOp(tok, state, compileAssignTernary);", "            compileBinOp(tok, state, compileAssignTernary);")]),
+    ("M6 assignment made left-associative (callee compileLogicOr)", "tokenlist.cpp",
+     [("            state.assign++;\n            const Token *tok1 = tok->next();\n            compileBinOp(tok, state, compileAssignTernary);",
+       "            state.assign++;\n            const Token *tok1 = tok->next();\n            compileBinOp(tok, state, compileLogicOr);")]),
+    ("M7 isPrefixUnary: `)` of a non-cast counts as prefix context", "tokenlist.cpp",
+     [('    return tok->strAt(-1) == ")" && iscast(tok->linkAt(-1), cpp);\n}', '    return tok->strAt(-1) == ")";\n}')]),
+    ("M8 compileRelComp gains `==`", "tokenlist.cpp",
+     [('if (Token::Match(tok, "<|<=|>=|>") && !tok->link()) {', 'if (Token::Match(tok, "<|<=|>=|>|==") && !tok->link()) {')]),
+]
+
+
+def mutation_selftest():
+    import shutil, subprocess, random, tempfile
+    variant = "o1"
+    b = build_repo.bdir(variant)
+    work = tempfile.mkdtemp(prefix="c07mut-", dir=os.path.join(core.VERIF, ".build", "tmp"))
+    drv = os.path.join(core.LEAN, ".lake", "build", "bin", "drv_c07")
+    try:
+        for name, fname, edits in MUTATIONS:
+            src = open(os.path.join(core.REPO, "lib", fname), encoding="utf-8").read()
+            mut = src
+            for a, r in edits:
+                if a not in mut:
+                    print("%s: pattern not found, mutation skipped" % name); mut = None; break
+                mut = mut.replace(a, r, 1)
+            if mut is None:
+                continue
+            d = os.path.join(work, "lib"); os.makedirs(d, exist_ok=True)
+            open(os.path.join(d, fname), "w").write(mut)
+            seen = []
+            # translator on the mutated source
+            fake = os.path.join(work, "repo"); os.makedirs(os.path.join(fake, "lib"), exist_ok=True)
+            for f in ("tokenlist.cpp", "token.cpp"):
+                shutil.copy(os.path.join(d, f) if f == fname else os.path.join(core.REPO, "lib", f), os.path.join(fake, "lib", f))
+            try:
+                x = extract(fake)
+                ref = extract()
+                if x != ref:
+                    seen.append("T: extracted ladder changed (Gen/AstLadder.lean differs: extracted_table_is_C / extracted_ladder_wf are re-decided)")
+            except Unrecognised as ex:
+                seen.append("T: translator fails closed (%s)" % str(ex)[:80])
+            # compile the mutated translation unit like the repo build does and link a private harness
+            wd = os.path.join(work, "mc"); os.makedirs(wd, exist_ok=True)
+            subprocess.run(["python3", os.path.join(core.REPO, "tools", "matchcompiler.py"), "--read-dir=" + d, "--write-dir=" + wd,
+                            "--prefix=mc_", "--line", fname], check=True, stdout=subprocess.DEVNULL)
+            obj = os.path.join(work, "mut.o")
+            cmd = ["g++", "-std=c++11", "-w", "-pipe", "-D" + build_repo.GUARD, "-DHAVE_BOOST", "-DHAVE_EXECINFO_H=1", "-DNDEBUG", "-O1"] + \
+                  ["-I%s/%s" % (core.REPO, i) for i in build_repo.INC_LIB] + ["-c", os.path.join(wd, "mc_" + fname), "-o", obj]
+            subprocess.run(cmd, check=True)
+            objs = [obj if os.path.basename(o) == "lib_" + fname[:-4] + ".o" else o for o in build_repo.lib_objs(variant)]
+            exe = os.path.join(work, "harness")
+            subprocess.run(["g++"] + build_repo.harness_cxxflags(variant) + ["-I" + os.path.join(core.VERIF, "harness"),
+                            os.path.join(core.VERIF, "harness", "c07.cpp"), "-o", exe] + objs + ["-lpthread"], check=True)
+            ctx = core.Ctx("C07", "quick", 1)
+            res = core.Result(ctx, LEVEL)
+            try:
+                rng = ctx.rng
+                cases = []
+                for i in range(1500):
+                    lang = "cpp" if i % 2 else "c"
+                    cases.append(mk_case(rng, lang, gen_tree(rng, rng.choice([2, 3, 4]), lang == "cpp", rng.random() < 0.5), rng.choice([0.0, 0.2])))
+                fails = run_cases(ctx, res, exe, drv, cases, "pipeline")
+                run_raw(ctx, res, exe, drv, 300, 600)
+                for o in res.obligations:
+                    if not o["ok"]:
+                        seen.append("C: %s (%s)" % (o["name"], o["detail"][:70]))
+                fails = [f for f in fails if f["key"] is None]
+                if fails:
+                    seen.append("P_impl: %d generated expressions get a wrong tree, e.g. %s" % (len(fails), fails[0]["desc"][:60]))
+            finally:
+                ctx.cleanup()
+            print("%s\n    %s" % (name, "\n    ".join(seen) if seen else "NOT NOTICED"))
+    finally:
+        shutil.rmtree(work, ignore_errors=True)
+
+
+if __name__ == "__main__":
+    import sys
+    if "--mutations" in sys.argv:
+        mutation_selftest()
